@@ -199,7 +199,7 @@ def gen_grid_case(r):
     size = max(56, seg * nseg - r.choice([0, 1, seg // 2, seg - 1]))      # > 55 bytes: not a literal file
     nseg = -(-size // (-(-seg // k) * k))
     servers = r.choice([n, n + 1, n + 3, max(2, n - 1)])
-    mode = r.choice(["badleaf", "badleaf", "decode", "both", "shares", "none"])
+    mode = r.choice(["badleaf", "badleaf", "decode", "both", "shares", "none", "short", "short", "header"])
     badleaf = sorted(r.sample(range(nseg), r.choice([1, 1, 2]) if nseg > 1 else 1)) if mode in ("badleaf", "both") else []
     decode_fail = sorted(r.sample(range(8), r.choice([1, 2]))) if mode in ("decode", "both") else []   # nth decode calls that fail
     reads = []
@@ -220,8 +220,20 @@ def gen_grid_case(r):
                              "action": r.choice(["error", "error_after", "delay", "corrupt"]), "how": "flip", "offset": r.randrange(0, 64)})
             else:
                 plan.append({"server": r.randrange(servers), "method": "get_buckets", "nth": 0, "count": 1, "action": r.choice(["error", "delay"])})
+    truncate, header = [], []
+    if mode == "short":
+        # share files cut to every small length (12-byte container header, then the share's version word and
+        # offset table), or a server that answers every read with nothing
+        for _ in range(r.choice([1, 1, 2, n])):
+            truncate.append([r.randrange(n), r.choice(list(range(0, 61)) + [72, 84, 85, 100, 120])])
+        if r.random() < 0.3:
+            plan.append({"server": r.randrange(servers), "method": "read", "nth": 0, "count": None, "action": "corrupt", "how": "empty"})
+    if mode == "header":
+        for _ in range(r.choice([1, 1, 2])):
+            header.append([r.randrange(n), r.randrange(0, 9), r.choice([0, 1, 35, 36, 37, 100, 2 ** 31, 2 ** 32 - 1, r.randrange(0, 400)])])
     return {"k": k, "n": n, "servers": servers, "segsize": seg, "size": size, "badleaf": badleaf, "decode_fail": decode_fail,
-            "reads": reads, "concurrent": concurrent, "plan": plan, "delete": delete, "seed": r.getrandbits(30)}
+            "reads": reads, "concurrent": concurrent, "plan": plan, "delete": delete, "truncate": truncate, "header": header,
+            "threads": r.random() < 0.15, "seed": r.getrandbits(30)}
 
 
 def run_grid_case(case):
@@ -232,10 +244,22 @@ def run_grid_case(case):
     import allmydata.immutable.downloader.node as NODE
     data = bytes((11 * i + case["size"]) & 0xFF for i in range(case["size"]))
     outcomes = []
-    with G.Grid(num_servers=case["servers"], k=case["k"], n=case["n"], happy=1, max_segment_size=case["segsize"], seed=case["seed"], timeout=60) as g:
+    with G.Grid(num_servers=case["servers"], k=case["k"], n=case["n"], happy=1, max_segment_size=case["segsize"], seed=case["seed"],
+                timeout=case.get("timeout", 8), threads=case.get("threads", False)) as g:
         cap = SQ.bad_upload(g, data, case["badleaf"]) if case["badleaf"] else g.run(g.upload(data, convergence=b"c46"))
         for shnum in case["delete"]:
             g.delete_shares(cap, shnums=[shnum])
+        import struct
+        for shnum, keep in case.get("truncate", []):
+            for sh in g.find_shares(cap):
+                if sh.shnum == shnum:
+                    g.write_share(sh, g.read_share(sh)[:keep])
+        for shnum, field, value in case.get("header", []):
+            for sh in g.find_shares(cap):
+                if sh.shnum == shnum:
+                    raw = bytearray(g.read_share(sh))
+                    raw[12 + 4 * field:12 + 4 * field + 4] = struct.pack(">L", value)      # v1 share: version, block size, data size, six offsets
+                    g.write_share(sh, bytes(raw))
         node = g.node(cap)
         if not hasattr(node, "_cnode"):
             return None, data       # literal file
@@ -288,10 +312,18 @@ def grid_cases(ctx):
             statuses.append(st if st != "error" else "error:" + str(err))
             want = data[off:] if sz is None else data[off:off + sz]
             if st in ("hung", "timeout"):
-                ctx.oracle_fail("read-never-completes-after-failed-segment" if (case["badleaf"] or case["decode_fail"]) else "read-never-completes",
-                                "read(%d,%r) number %d on the node is %s: the event queue is drained, every server call answered, all timers fired, and the read "
-                                "has delivered neither data nor an error (earlier reads: %r)" % (off, sz, len(statuses) - 1, st, statuses[:-1]),
-                                case=case, expected="data or an error", observed=statuses)
+                kind = "read-never-completes"
+                if case["badleaf"] or case["decode_fail"]:
+                    kind = "read-never-completes-after-failed-segment"
+                elif st == "timeout" and (case.get("truncate") or case.get("header") or any(f.get("how") == "empty" for f in case["plan"])):
+                    kind = "read-spins-on-short-answer"
+                if kind == "read-spins-on-short-answer":
+                    what = ("read(%d,%r) number %d on the node did not finish within %d s (about 100x a normal case): the downloader keeps issuing "
+                            "read calls for bytes the server has already answered short (earlier reads: %r)" % (off, sz, len(statuses) - 1, case.get("timeout", 8), statuses[:-1]))
+                else:
+                    what = ("read(%d,%r) number %d on the node is %s: the event queue is drained, every server call answered, all timers fired, and the read "
+                            "has delivered neither data nor an error (earlier reads: %r)" % (off, sz, len(statuses) - 1, st, statuses[:-1]))
+                ctx.oracle_fail(kind, what, case=case, expected="data or an error", observed=statuses)
                 break
             if st == "ok" and val != want:
                 ctx.oracle_fail("read-returned-wrong-bytes", "read(%d,%r) returned %d bytes that are not the plaintext slice" % (off, sz, len(val)), case=case,
